@@ -50,3 +50,54 @@ def runAll (s : Cache) : List (Call × Outcome) → Cache
   | (c, o) :: r => runAll (run s c o).1 r
 
 end Hdl21.GenRun
+
+/-! ## Generators that call generators
+
+A body, this time it runs, makes some generator calls of its own — each with the body *that* call would run — and either
+lets a failure among them propagate or catches it (`try: Inner(bad) except: fallback`), then returns or raises. -/
+namespace Hdl21.GenRun
+
+inductive Ev
+  | call (c : Call) (nested : List Ev) (catches : Bool) (out : Outcome)
+
+mutual
+def runEv (s : Cache) : Ev → Cache × Result
+  | .call c nested catches out =>
+    match lookup c s.done with
+    | some m => (s, .module m)                                   -- cached: the body does not run
+    | none =>
+      if c ∈ s.pending then (s, .circular)
+      else
+        let r := runBody { s with pending := c :: s.pending, stack := c :: s.stack } catches nested
+        let s₃ : Cache := { r.1 with pending := r.1.pending.erase c, stack := r.1.stack.tail }
+        match r.2 with
+        | some f => (s₃, f)                                      -- a nested failure propagates, as the exception it is
+        | none =>
+          match out with
+          | .raises => (s₃, .failed)
+          | .ok m => ({ s₃ with done := (c, m) :: s₃.done }, .module m)
+/-- the nested calls of a body, in order: `some f` when one of them failed with `f` and the body did not catch it -/
+def runBody (s : Cache) (catches : Bool) : List Ev → Cache × Option Result
+  | [] => (s, none)
+  | e :: r =>
+    let q := runEv s e
+    match q.2 with
+    | .module _ => runBody q.1 catches r
+    | .circular => if catches then runBody q.1 catches r else (q.1, some .circular)
+    | .failed => if catches then runBody q.1 catches r else (q.1, some .failed)
+end
+
+/-! `cyc anc e`: the event tree itself asks for a call from inside a call with the same key (or one of `anc`) -/
+mutual
+def cyc (anc : List Call) : Ev → Bool
+  | .call c nested _ _ => decide (c ∈ anc) || cycL (c :: anc) nested
+def cycL (anc : List Call) : List Ev → Bool
+  | [] => false
+  | e :: r => cyc anc e || cycL anc r
+end
+
+def runEvs (s : Cache) : List Ev → Cache
+  | [] => s
+  | e :: r => runEvs (runEv s e).1 r
+
+end Hdl21.GenRun
